@@ -1014,9 +1014,13 @@ def _(g):
     return [T(O("gmx1.buy_glp", g.name, {"token": t, "amount": {"abs": "1"}}))]
 
 
-@entry("gmx1.buy_glp:unknown_token", "gmx1", "py_KeyError")
+@entry("gmx1.buy_glp:unknown_token", "gmx1", ("py_KeyError", "wallet_no_such_token"))
 def _(g):
-    return [T(O("gmx1.buy_glp", g.name, {"token": GHOST, "amount": {"abs": "1"}}))]
+    # a token outside the GLP basket: one the wallet holds if the world has one (then the price lookup fails, KeyError),
+    # otherwise GHOST (then the wallet refuses first)
+    outside = sorted(t for t, v in g.world["assets"].items() if t not in g.mw["tokens"] and Decimal(v) > 0)
+    t = g.rng.choice(outside) if outside else GHOST
+    return [T(O("gmx1.buy_glp", g.name, {"token": t, "amount": {"abs": "0.001"}}))]
 
 
 @entry("gmx1.sell_glp:beyond_holding", "gmx1", "beyond_holding")
